@@ -1,8 +1,11 @@
 """C20 — caches and event dispatch obey their sequential spec under any schedule."""
+import os
+
 from vlib import core
 from harness import c20_events
 from harness import c20_cache
 from harness import c20_threaded
+from harness import c20_api
 
 PROP = 'C20'
 MODEL_MODULES = ['TenpyModel.Util.J', 'TenpyModel.C20.Events', 'TenpyModel.C20.Cache', 'TenpyModel.C20.Threaded']
@@ -46,6 +49,8 @@ def run(ctx):
     res.merge(c20_events.run(ctx))
     res.merge(c20_cache.run(ctx))
     res.merge(c20_threaded.run(ctx))
+    if not os.environ.get('VERIF_C20_NO_API'):      # (switch used once to measure the coverage before the API stream)
+        res.merge(c20_api.run(ctx))
     return res
 
 
@@ -54,6 +59,7 @@ def search(ctx, reasons):
     res.merge(c20_events.search(ctx))
     res.merge(c20_cache.search(ctx))
     res.merge(c20_threaded.search(ctx))
+    res.merge(c20_api.search(ctx))
     return res
 
 
@@ -71,6 +77,8 @@ def replay(ctx, payload):
             res.merge(c20_cache.run_cases(ctx, [ops], storages=[case.get('storage', 'Storage')]))
     elif part == 'threaded':
         res.merge(c20_threaded.run_batch(ctx, [case]))
+    elif part == 'api':
+        res.merge(c20_api.run_cases(ctx, [case]))
     elif part == 'stress':
         res.merge(c20_threaded.replay_stress(ctx, case))
     return res
